@@ -163,6 +163,12 @@ def run(c):
 
     sign = c["sign"]
     nR, nZ = c["nR"], c["nZ"]
+    # "zoff": the whole configuration - domain, wall and flux function - displaced in Z (nothing in the property refers to Z = 0)
+    global ZL
+    zoff = float(c.get("zoff", 0.0))
+    ZL = (-0.7 + zoff, 0.7 + zoff)
+    if zoff:
+        c = dict(c, lobes=[[lb[0], lb[1], lb[2] + zoff] + list(lb[3:]) for lb in c["lobes"]])
     r1, z1 = np.linspace(*RL, nR), np.linspace(*ZL, nZ)
     if c["lobes"] and c["lobes"][0][0] == "quadnode":
         # position given as (node index, fraction of the cell) so that half-cell positions are exactly equidistant from two nodes
@@ -212,7 +218,7 @@ def run(c):
     if psirange == 0.0:
         psirange = float(np.max(np.abs(psi2)))
     qpsi = 1e-7 * psirange
-    wall = E.default_wall(inset=c.get("wall_inset", 0.2))
+    wall = [(float(p[0]), float(p[1]) + zoff) for p in E.default_wall(inset=c.get("wall_inset", 0.2))]
     poly = np.array(wall)
     # psi_bdry is the psi of the first X-point the code can see: the nearest in psi among those that pass the monotonicity test
     vis = [p for p in txs if (lambda m: m[0] <= 0.001 and m[1] <= 1e-4)(mono_metric(psi, axis, p))] if tos else txs
@@ -288,7 +294,8 @@ def run(c):
                 ri, ro = eq.regions[ni], eq.regions[no]
                 si = ri[0] if ri.kind.startswith("wall") else ri[-1]
                 so = ro[0] if ro.kind.startswith("wall") else ro[-1]
-                tok["legs"].append({"which": ud, "inner": int(round(si.R / 1e-6)), "outer": int(round(so.R / 1e-6))})
+                xi = ri[-1] if ri.kind.startswith("wall") else ri[0]      # the leg's end at its X-point
+                tok["legs"].append({"which": ud, "inner": int(round(si.R / 1e-6)), "outer": int(round(so.R / 1e-6)), "below": int(xi.Z < eq.o_point.Z)})
     except Exception as e:  # noqa
         tok["exc"] = "%s: %s" % (type(e).__name__, str(e)[:200])
     rec["tok"] = tok
